@@ -148,7 +148,7 @@ Proof.
     assert (inv s0) as I0. { split; simpl; auto. intros c. rewrite !hands_cmds. simpl. split; auto. specialize (D c). lia. }
     assert (clean s0) as C0.
     { split; simpl.
-      - clear -K. induction p1 as [|c p IH]; simpl in *; auto. apply andb_true_iff in K. destruct K as (K1 & K2). destruct c; try discriminate. simpl. auto.
+      - clear -K. induction p1 as [|c p IH]; simpl in *; auto. apply andb_true_iff in K. destruct K as (K1 & K2). destruct c; try discriminate; simpl; auto.
       - clear. destruct p0; simpl; auto. induction p0; simpl; auto. }
     apply settle_inv3; auto. unfold inv3, sub_ok, wait_ok, perf_ok; simpl. repeat split; auto; try congruence.
     destruct p0; simpl; auto. destruct p0; simpl; auto.
